@@ -12,9 +12,7 @@ CFG = {
         "gRPC stream buffering, the wall-clock width of the hand-over window and concurrent Puts racing between the inner Put and the dispatch are not modelled",
         "PublicRandStream is tied by the translator (Gen/StreamCalls.v: store := bp.beacon.Store(); return beacon.SyncChain(..., store, proxyReq, proxyStr); proxies forward round and fields unchanged), not executed",
     ],
-    "assumptions": [
-        "C11_contiguous_no_window / C11_contiguous_rounds: no beacon is appended between the stream's snapshot (bolt) or last scan read (memdb) and its AddCallback; the full statement is refuted (class C11-put-in-handover-window-skipped); C11_skips_only_window characterises every schedule without carve-out",
-    ],
-    "level_text": "Proved for ALL schedules (any interleaving of appends, stream starts at any round, Send completions with success or failure, registrations; any number of concurrent streams and same-id reconnects) on both cursor kinds: what a stream sends is a prefix of the requested part of the store minus exactly the beacons appended in its hand-over window (C11_skips_only_window), hence contiguous, in order and equal to the stored beacons when the window is empty (C11_contiguous_no_window, C11_contiguous_rounds, C11_start_round), and after AddCallback a prefix of the appends from that point in append order (C11_order_live). The full statement is refuted by a kernel-checked 13-event witness that is replayed on the real SyncChain on every run (sent 1 2 3 5 6). The model is compared with the real SyncChain over the real callback store on memdb, trimmed bolt and untrimmed bolt under harness-chosen interleavings.",
+    "assumptions": [],
+    "level_text": "Proved for ALL schedules (any interleaving of appends, stream starts at any round, Send completions with success or failure, registrations; any number of concurrent streams and same-id reconnects) on both cursor kinds (bolt snapshot, memdb live index): what a stream has sent is a prefix of the stored beacons from its start position - every round once, in order, equal to the stored beacon (C11_full, C11_rounds, C11_start_round), and after AddCallback a prefix of the store from the registration position on (C11_order_live). The schedule that used to lose a beacon in the hand-over window is kept as a regression case in the model (C11_witness_repaired) and in the engine. The model is compared with the real SyncChain over the real callback store on memdb, trimmed bolt and untrimmed bolt under harness-chosen interleavings.",
     "level_note": "Kernel-checked, no axioms. The bbolt read-transaction snapshot, gRPC buffering and Go scheduling inside a step are assumed/modelled, validated by the correspondence, not verified.",
 }
